@@ -303,6 +303,55 @@ def concurrent_builds_stress(k, seconds):
     return errs[:2]
 
 
+def concurrent_calls_stress(k, seconds):
+    """8 threads call ONE shared DAG (already set up) with their own arguments under sys.setswitchinterval(1e-6):
+    every call returns the result for its own argument, none raises, none hangs"""
+    import sys
+    load = tawazi.xn(named(lambda: 100, "sc_cload%d" % k), setup=True)
+    inc = tawazi.xn(named(lambda x, l: x + l, "sc_cinc%d" % k))
+    wide = tawazi.xn(named(lambda x, *cs: x + sum(cs), "sc_cwide%d" % k))
+    dbl = tawazi.xn(named(lambda x: 2 * x, "sc_cdbl%d" % k), resource=Resource.main_thread)
+
+    def desc(x):
+        a = inc(x, load())
+        b = wide(a, *([1] * 150))
+        return dbl(b)
+    d = tawazi.dag(named(desc, "sc_calls%d" % k), max_concurrency=2)
+    d.setup()
+    errs = []
+    stop = time.time() + seconds
+    barrier = threading.Barrier(8)
+
+    def worker(i):
+        try:
+            barrier.wait(5)
+        except BaseException:  # noqa: BLE001
+            pass
+        j = 0
+        while time.time() < stop and not errs:
+            x = 1000 * i + j
+            try:
+                r = d(x)
+                if r != 2 * (x + 100 + 150):
+                    errs.append("thread %d called the shared DAG with %d and got %r instead of %d" % (i, x, r, 2 * (x + 250)))
+            except BaseException as e:  # noqa: BLE001
+                errs.append("thread %d: a call of the shared DAG raised %s: %s" % (i, type(e).__name__, str(e)[:100]))
+            j += 1
+    old = sys.getswitchinterval()
+    sys.setswitchinterval(1e-6)
+    try:
+        ths = [threading.Thread(target=worker, args=(i,), daemon=True, name="worker") for i in range(8)]
+        for t in ths:
+            t.start()
+        for t in ths:
+            t.join(seconds + 15)
+        if any(t.is_alive() for t in ths):
+            errs.append("concurrent calls of one shared DAG did not return")
+    finally:
+        sys.setswitchinterval(old)
+    return errs[:2]
+
+
 # ------------------------------------------------------------------------------ C10 / C13: a debug node inside a deactivated nested DAG
 def debug_node_in_deactivated_nested_dag(k):
     ran = []
@@ -353,6 +402,8 @@ def run(pid, tier, seed, res):
             res.evaluations += 1
             for msg in concurrent_builds_stress(k, 2.0 if tier == "quick" else 15.0):
                 res.hit("C16", "monitor", msg, dict(engine="scenario", kind="monitor", scenario="concurrent_builds_stress", k=k))
+            for msg in concurrent_calls_stress(k, 2.5 if tier == "quick" else 15.0):
+                res.hit("C16", "monitor", msg, dict(engine="scenario", kind="monitor", scenario="concurrent_calls_stress", k=k))
         if pid in ("C10", "C13"):
             res.evaluations += 1
             for msg in debug_node_in_deactivated_nested_dag(k):
